@@ -409,56 +409,7 @@ func r04ValidationTemplates(c *an.Ctx) {
 			c.Okf("R04.3", construct, "emits `value %s %s` reported as %s bound in all %d variants", spec.op, spec.bound, map[string]string{"true": "lower", "false": "upper"}[spec.lower], 1<<len(runtimeAtoms))
 		}
 	}
-	// site-independent form of R04.3: whatever bound a variant of a keyword template prints, the
-	// comparison and the lower/upper flag must be those of that bound's keyword
-	for _, tn := range []string{"exclMinMaxValTmpl", "minMaxValTmpl", "lengthValTmpl"} {
-		tpl, err := c.TplConst("codegen", tn)
-		if err != nil {
-			c.Add(an.Obligation{Rule: "R04.3", Construct: "codegen." + tn, Status: an.LOST, Detail: err.Error()})
-			continue
-		}
-		atoms := an.TplAtoms(tpl.Tree)
-		var probs []string
-		bounds := map[string]bool{}
-		for m := 0; m < 1<<len(atoms); m++ {
-			v := an.Variant{Bools: map[string]bool{}}
-			for j, a := range atoms {
-				v.Bools[a] = m&(1<<j) != 0
-			}
-			text := an.ExpandTree(tpl.Tree, v).Text
-			c.Stats["variants_expanded"]++
-			var op, bound string
-			if mm := reRange.FindStringSubmatch(text); mm != nil {
-				op, bound = mm[1], mm[2]
-			} else if mm := reLen.FindStringSubmatch(text); mm != nil {
-				op, bound = mm[2], mm[3]
-			} else {
-				probs = append(probs, "a variant has no comparison guard")
-				continue
-			}
-			spec, known := keywordTable[bound]
-			if !known {
-				probs = append(probs, "a variant compares with ."+bound+", which is not a validation bound")
-				continue
-			}
-			bounds[bound] = true
-			if op != spec.op {
-				probs = append(probs, fmt.Sprintf("the variant that checks .%s rejects `value %s bound`; the keyword means `value %s bound`", bound, op, spec.op))
-			}
-			if em := reErr.FindStringSubmatch(text); em == nil || em[2] != bound || em[3] != spec.lower {
-				probs = append(probs, fmt.Sprintf("the variant that checks .%s does not report it as its %s bound", bound, map[string]string{"true": "lower", "false": "upper"}[spec.lower]))
-			}
-		}
-		if len(bounds) != 2 {
-			probs = append(probs, fmt.Sprintf("the template covers bounds %v, expected a lower and an upper one", sortedKeys(bounds)))
-		}
-		probs = dedupStrings(probs)
-		if len(probs) > 0 {
-			c.Failf("R04.3", "codegen."+tn+"#variants", 0, "%s", strings.Join(probs[:min(3, len(probs))], " | "))
-		} else {
-			c.Okf("R04.3", "codegen."+tn+"#variants", "all %d variants: comparison and lower/upper flag belong to the bound that is printed (%v)", 1<<len(atoms), sortedKeys(bounds))
-		}
-	}
+	r04KeywordVariants(c, "R04.3")
 	for _, kw := range sortedKeys(keywordTable) {
 		if !kwSeen[kw] {
 			c.Failf("R04.3", "codegen.validationCode#"+kw, f.Decl.Pos(), "no template execute site found for keyword %s", kw)
@@ -985,3 +936,51 @@ func r041HandlerGate(c *an.Ctx) {
 }
 
 var _ = ssa.BuilderMode(0)
+
+var (
+	reKwRange = regexp.MustCompile(`if ‹\.targetVal› (<=|>=|<|>) ‹\.(\w+)› \{`)
+	reKwLen   = regexp.MustCompile(`if (utf8\.RuneCountInString|len)\(‹[^›]*›\) (<=|>=|<|>) ‹\.(\w+)› \{`)
+	reKwErr   = regexp.MustCompile(`goa\.Invalid(Range|Length)Error\("‹\.context›", ‹[^›]*›, (?:(?:utf8\.RuneCountInString|len)\(‹[^›]*›\), )?‹\.(\w+)›, (true|false)\)`)
+)
+
+// keywordVariantProblems expands every variant of a keyword template: whatever
+// bound a variant prints, the comparison and the lower/upper flag must be
+// those of that bound's keyword.
+func keywordVariantProblems(c *an.Ctx, tpl *an.Tpl) (probs []string, boundsSeen []string, variants int) {
+	atoms := an.TplAtoms(tpl.Tree)
+	bounds := map[string]bool{}
+	for m := 0; m < 1<<len(atoms); m++ {
+		v := an.Variant{Bools: map[string]bool{}}
+		for j, a := range atoms {
+			v.Bools[a] = m&(1<<j) != 0
+		}
+		text := an.ExpandTree(tpl.Tree, v).Text
+		c.Stats["variants_expanded"]++
+		variants++
+		var op, bound string
+		if mm := reKwRange.FindStringSubmatch(text); mm != nil {
+			op, bound = mm[1], mm[2]
+		} else if mm := reKwLen.FindStringSubmatch(text); mm != nil {
+			op, bound = mm[2], mm[3]
+		} else {
+			probs = append(probs, "a variant has no comparison guard")
+			continue
+		}
+		spec, known := keywordTable[bound]
+		if !known {
+			probs = append(probs, "a variant compares with ."+bound+", which is not a validation bound")
+			continue
+		}
+		bounds[bound] = true
+		if op != spec.op {
+			probs = append(probs, fmt.Sprintf("the variant that checks .%s rejects `value %s bound`; the keyword means `value %s bound`", bound, op, spec.op))
+		}
+		if em := reKwErr.FindStringSubmatch(text); em == nil || em[2] != bound || em[3] != spec.lower {
+			probs = append(probs, fmt.Sprintf("the variant that checks .%s does not report it as its %s bound", bound, map[string]string{"true": "lower", "false": "upper"}[spec.lower]))
+		}
+	}
+	if len(bounds) != 2 {
+		probs = append(probs, fmt.Sprintf("the template covers bounds %v, expected a lower and an upper one", sortedKeys(bounds)))
+	}
+	return dedupStrings(probs), sortedKeys(bounds), variants
+}
